@@ -106,6 +106,8 @@ def eq_value_vc(name, ctx, out, ref, guard, idx, twin=False):
 
     def judge(val, outs):
         val = complete_val(ctx, val)
+        if idx >= len(outs):          # (a counterfactual run may produce fewer intermediate forms)
+            return None
         o = outs[idx]
         if o["kind"] != "value" or o.get("mp") is None:
             return None
@@ -130,7 +132,7 @@ def kind_vc(name, ctx, out, allowed_when, idx):
 
     def judge(val, outs):
         val = complete_val(ctx, val)
-        if outs[idx]["kind"] != kind:
+        if idx >= len(outs) or outs[idx]["kind"] != kind:
             return None
         try:
             ok = orc.mp_bool(allowed_when, val)
